@@ -6,6 +6,8 @@
 (*    the value classes  VER {5, other}, NMETHODS {0,1,2,255}, METHODS {none, no-auth, user/pass, *)
 (*    both}, credentials {good, bad, bad version}, CMD {1,2,3,other}, RSV {0, other},            *)
 (*    ATYP {1,3,4,other}, domain length DLens, trailing payload {0,3 bytes}, FRAG {0, other},    *)
+(*    ADDRESS VALUE CLASSES (acl: IPv4 zero/bcast/vdns/loop, IPv6 unspec/loop/mapped/compat/...,   *)
+(*    dch: names that are numeric, IP literals in several spellings, trailing dot, upper case),   *)
 (*    crossed with a truncation point (before every field, inside every multi-byte field) and a  *)
 (*    chunking class (all at once, one message per chunk, byte by byte, split inside fields).    *)
 (* 2. An implementation-shaped parser: one ConnRead action per Read call on the connection (it   *)
@@ -14,6 +16,10 @@
 (*    read" (read up to 257 bytes, keep 2+NMETHODS, drop the rest) is a named alternative that     *)
 (*    sets the ghost flag `dev`; so is the UDP parser's "refuse everything shorter than           *)
 (*    UdpMinLen bytes" (RFC: the shortest header is 4+1+0+2 = 7 bytes).                           *)
+(*    The parsers hand an address on as TEXT (Socks5Ref: RenderIP / RenderNetip) and the UDP      *)
+(*    encoder classifies that text again (EncodeText): the deviation NetipText ("IP addresses are  *)
+(*    printed with net/netip") is harmless where the text is only dialled and breaks the UDP round  *)
+(*    trip for IPv4-mapped IPv6 addresses, where parser and encoder disagree about the text.        *)
 (* 3. Invariants: the model parser, under every chunking and truncation, produces exactly what     *)
 (*    the byte-level reference (Socks5Ref) assigns and what the judge demands (HsViol = {}),       *)
 (*    never consumes past the message, always terminates; UDP Build/Parse round trips.             *)
@@ -29,6 +35,9 @@ CONSTANTS Emit,        \* print behaviours
           Chunkings,   \* subset of {"all","msg","bytes","split"} for complete messages
           CutChunkings,\* ... and for truncated ones
           PlainJoin,   \* profiles that build "host:port" by plain concatenation (deviation; {} on a conforming tree)
+          NetipText,   \* code paths ("listener", "adapter", "adapterauth", "udp") whose parser renders IP addresses with
+                       \* net/netip instead of net.IP (deviation where an encoder reads the text back; {} on a conforming tree)
+          ValClasses,  \* TRUE: the address value classes of Socks5Ref (V4Classes, V6Classes, name classes) are enumerated
           WithUdp
 
 VARIABLES c, ch, stream, bounds, ref, pc, pos, got, want, fs, wrote, out, dev
@@ -41,12 +50,22 @@ SumTo(ls, k) == LET S[i \in 0..k] == IF i = 0 THEN 0 ELSE S[i - 1] + ls[i] IN S[
 
 \* ---- abstract cases ------------------------------------------------------------------------
 NoCut == [f |-> "none", w |-> ""]
-\* dch: content class of a domain name: "name" (no ':') or "colon" (contains ':', e.g. an IPv6 literal sent as a name)
-DefReq == [ver2 |-> 5, cmd |-> 1, rsv |-> 0, atyp |-> 1, dlen |-> 0, dch |-> "name"]
+\* dch: content class of a domain name: "name" (no ':'), "colon" (contains ':', e.g. an IPv6 literal sent as a name), and the
+\* value classes of Socks5Ref!NameVal; acl: value class of an IPv4 / IPv6 address (Socks5Ref!V4Val, V6Val)
+DefReq == [ver2 |-> 5, cmd |-> 1, rsv |-> 0, atyp |-> 1, dlen |-> 0, dch |-> "name", acl |-> "gen"]
+NameClasses == {"num", "dot", "upper"} \cup FixedNames
+\* (atyp, dlen, dch, acl) of the value classes beyond the generic representatives
+ValAddrs == IF ~ValClasses THEN {} ELSE
+        {<<1, 0, "name", a>> : a \in V4Classes \ {"gen"}}
+   \cup {<<4, 0, "name", a>> : a \in V6Classes \ {"gen"}}
+   \cup {<<3, NameLen(k, dl), k, "gen">> : k \in NameClasses, dl \in {1, 7, 255}}
 Reqs == {[DefReq EXCEPT !.ver2 = 4]}
-   \cup {[ver2 |-> 5, cmd |-> cm, rsv |-> rs, atyp |-> at, dlen |-> 0, dch |-> "name"] : cm \in {1, 2, 3, 9}, rs \in {0, 1}, at \in {1, 4, 5}}
-   \cup {[ver2 |-> 5, cmd |-> cm, rsv |-> rs, atyp |-> 3, dlen |-> dl, dch |-> "name"] : cm \in {1, 2, 3, 9}, rs \in {0, 1}, dl \in DLens}
-   \cup {[ver2 |-> 5, cmd |-> cm, rsv |-> 0, atyp |-> 3, dlen |-> dl, dch |-> "colon"] : cm \in {1, 2}, dl \in DLens \ {0}}
+   \cup {[ver2 |-> 5, cmd |-> cm, rsv |-> rs, atyp |-> at, dlen |-> 0, dch |-> "name", acl |-> "gen"] : cm \in {1, 2, 3, 9}, rs \in {0, 1}, at \in {1, 4, 5}}
+   \cup {[ver2 |-> 5, cmd |-> cm, rsv |-> rs, atyp |-> 3, dlen |-> dl, dch |-> "name", acl |-> "gen"] : cm \in {1, 2, 3, 9}, rs \in {0, 1}, dl \in DLens}
+   \cup {[ver2 |-> 5, cmd |-> cm, rsv |-> 0, atyp |-> 3, dlen |-> dl, dch |-> "colon", acl |-> "gen"] : cm \in {1, 2}, dl \in DLens \ {0}}
+   \cup {[ver2 |-> 5, cmd |-> cm, rsv |-> 0, atyp |-> v[1], dlen |-> v[2], dch |-> v[3], acl |-> v[4]] : cm \in {1, 3}, v \in ValAddrs}
+\* truncation points are enumerated for the generic representatives only (a value class changes no length)
+IsVal(q) == q.acl # "gen" \/ q.dch \notin {"name", "colon"}
 Greets == {[ver1 |-> 4, nm |-> 1, mset |-> "noauth"], [ver1 |-> 5, nm |-> 0, mset |-> "-"]}
      \cup {[ver1 |-> 5, nm |-> 1, mset |-> x] : x \in {"none", "noauth", "userpass"}}
      \cup {[ver1 |-> 5, nm |-> n, mset |-> x] : n \in {2, 255}, x \in {"none", "noauth", "userpass", "both"}}
@@ -59,7 +78,7 @@ DefAuth(m) == IF m = 2 THEN "good" ELSE "-"
 
 Base(p, g, a, q, trail, cut) ==
   [kind |-> "hs", prof |-> p, ver1 |-> g.ver1, nm |-> g.nm, mset |-> g.mset, auth |-> a,
-   ver2 |-> q.ver2, cmd |-> q.cmd, rsv |-> q.rsv, atyp |-> q.atyp, dlen |-> q.dlen, dch |-> q.dch,
+   ver2 |-> q.ver2, cmd |-> q.cmd, rsv |-> q.rsv, atyp |-> q.atyp, dlen |-> q.dlen, dch |-> q.dch, acl |-> q.acl,
    frag |-> 0, pay |-> 0, trail |-> trail, cut |-> cut]
 
 \* concrete representative bytes of a case, field by field
@@ -69,10 +88,10 @@ Methods(n, mset) ==
     [] mset = "noauth"   -> Rep(n - 1, 1) \o <<0>>          \* the acceptable method comes last
     [] mset = "userpass" -> Rep(n - 1, 1) \o <<2>>
     [] mset = "both"     -> <<2>> \o Rep(n - 2, 1) \o <<0>>
-AddrBytes(atyp, dlen, dch) ==
-  CASE atyp = 1 -> <<10, 1, 2, 3>>
-    [] atyp = 4 -> <<32, 1, 13, 184>> \o Rep(11, 0) \o <<1>>
-    [] atyp = 3 -> Rep(dlen, IF dch = "colon" THEN 58 ELSE 97)
+AddrBytes(atyp, dlen, dch, acl) ==
+  CASE atyp = 1 -> V4Val(acl)
+    [] atyp = 4 -> V6Val(acl)
+    [] atyp = 3 -> NameVal(dch, dlen)
     [] OTHER -> <<9, 9, 9, 9>>                              \* something follows an unknown ATYP
 F(f, b) == [f |-> f, b |-> b]
 HsFields(x) ==
@@ -85,13 +104,13 @@ HsFields(x) ==
         ELSE <<>>)
     \o <<F("ver2", <<x.ver2>>), F("cmd", <<x.cmd>>), F("rsv", <<x.rsv>>), F("atyp", <<x.atyp>>)>>
     \o (IF x.atyp = 3 THEN <<F("dlen", <<x.dlen>>)>> ELSE <<>>)
-    \o <<F("addr", AddrBytes(x.atyp, x.dlen, x.dch)), F("port", <<31, 144>>), F("trail", Rep(x.trail, 238))>>,
+    \o <<F("addr", AddrBytes(x.atyp, x.dlen, x.dch, x.acl)), F("port", <<31, 144>>), F("trail", Rep(x.trail, 238))>>,
     LAMBDA fl : Len(fl.b) > 0)
 UdpFields(x) ==
   SelectSeq(
        <<F("rsv", <<x.rsv, x.rsv>>), F("frag", <<x.frag>>), F("atyp", <<x.atyp>>)>>
     \o (IF x.atyp = 3 THEN <<F("dlen", <<x.dlen>>)>> ELSE <<>>)
-    \o <<F("addr", AddrBytes(x.atyp, x.dlen, x.dch)), F("port", <<0, 53>>), F("data", Rep(x.pay, 238))>>,
+    \o <<F("addr", AddrBytes(x.atyp, x.dlen, x.dch, x.acl)), F("port", <<0, 53>>), F("data", Rep(x.pay, 238))>>,
     LAMBDA fl : Len(fl.b) > 0)
 Fields(x) == IF x.kind = "hs" THEN HsFields(x) ELSE UdpFields(x)
 
@@ -144,15 +163,18 @@ HsCases(p) ==
                /\ (b[3] # DefReq => (GPass(b[1], m) /\ b[2] \in {"-", "good"}))
       B == {b \in bases : ok(b)}
   IN  {Base(p, b[1], b[2], b[3], tr, NoCut) : b \in B, tr \in {0, 3}}
- \cup UNION {{Base(p, b[1], b[2], b[3], 0, k) : k \in Cuts(Base(p, b[1], b[2], b[3], 0, NoCut))} : b \in B}
+ \cup UNION {{Base(p, b[1], b[2], b[3], 0, k) : k \in Cuts(Base(p, b[1], b[2], b[3], 0, NoCut))} : b \in {x \in B : ~IsVal(x[3])}}
 
 UdpBase(rsv, frag, atyp, dlen, pay, cut) ==
   [kind |-> "udp", prof |-> "udp", ver1 |-> 0, nm |-> 0, mset |-> "-", auth |-> "-", ver2 |-> 0, cmd |-> 0,
-   rsv |-> rsv, atyp |-> atyp, dlen |-> dlen, dch |-> "name", frag |-> frag, pay |-> pay, trail |-> 0, cut |-> cut]
+   rsv |-> rsv, atyp |-> atyp, dlen |-> dlen, dch |-> "name", acl |-> "gen", frag |-> frag, pay |-> pay, trail |-> 0, cut |-> cut]
 UdpCases ==
   LET B == {UdpBase(rs, fr, at, 0, py, NoCut) : rs \in {0, 1}, fr \in {0, 1}, at \in {1, 4, 5}, py \in {0, 1, 2, 5}}
       \cup {UdpBase(rs, fr, 3, dl, py, NoCut) : rs \in {0, 1}, fr \in {0, 1}, dl \in DLens, py \in {0, 1, 2, 5}}
-  IN B \cup UNION {{[b EXCEPT !.cut = k] : k \in Cuts(b)} : b \in {x \in B : x.pay = 0}}
+      \* every address value class, with and without payload (and colon names, which the encoder may read as IPv6 text)
+      VB == {[UdpBase(0, 0, v[1], v[2], py, NoCut) EXCEPT !.dch = v[3], !.acl = v[4]] : v \in ValAddrs, py \in {0, 2}}
+         \cup (IF ValClasses THEN {[UdpBase(0, 0, 3, dl, py, NoCut) EXCEPT !.dch = "colon"] : dl \in DLens \ {0}, py \in {0, 2}} ELSE {})
+  IN B \cup VB \cup UNION {{[b EXCEPT !.cut = k] : k \in Cuts(b)} : b \in {x \in B : x.pay = 0}}
 
 Cases == (UNION {HsCases(p) : p \in Profiles}) \cup (IF WithUdp THEN UdpCases ELSE {})
 
@@ -171,7 +193,9 @@ Bounds(x, cls) ==
   IN {b \in raw : b > 0 /\ b < n}
 
 \* ---- the parser (implementation-shaped) ------------------------------------------------------
-NoOut == [ok |-> FALSE, cmd |-> 0, atyp |-> 0, addr |-> <<>>, port |-> 0]
+NoOut == [ok |-> FALSE, cmd |-> 0, atyp |-> 0, addr |-> <<>>, host |-> <<>>, port |-> 0]
+\* the text a code path hands an address on as
+Render(path, atyp, a) == IF path \in NetipText THEN RenderNetip(atyp, a) ELSE RenderIP(atyp, a)
 ErrReply(rep) == <<5, rep, 0, 1, 0, 0, 0, 0, 0, 0>>
 
 Init == /\ c \in Cases
@@ -186,7 +210,7 @@ Init == /\ c \in Cases
 
 P == Profile(c.prof)
 BehOf == [kind |-> c.kind, prof |-> c.prof, ver1 |-> c.ver1, nm |-> c.nm, mset |-> c.mset, auth |-> c.auth,
-          ver2 |-> c.ver2, cmd |-> c.cmd, rsv |-> c.rsv, atyp |-> c.atyp, dlen |-> c.dlen, dch |-> c.dch, frag |-> c.frag,
+          ver2 |-> c.ver2, cmd |-> c.cmd, rsv |-> c.rsv, atyp |-> c.atyp, dlen |-> c.dlen, dch |-> c.dch, acl |-> c.acl, frag |-> c.frag,
           pay |-> c.pay, trail |-> c.trail, cut |-> c.cut, chunk |-> ch,
           want |-> IF c.kind = "hs" THEN HsClass(ref) ELSE UdpClass(ref, stream)]
 EmitBeh == IF Emit THEN PrintT("BEH " \o ToJson(BehOf)) ELSE TRUE
@@ -219,7 +243,8 @@ Decide(b) ==
                 [] OTHER -> Stop(wrote \o ErrReply(8), out)
     [] pc = "r_dlen" -> IF b[1] = 0 THEN Go("r_port", 2, wrote, out) ELSE Go("r_addr", b[1], wrote, out)
     [] pc = "r_addr" -> Go("r_port", 2, wrote, [out EXCEPT !.addr = b])
-    [] pc = "r_port" -> Stop(wrote, [out EXCEPT !.ok = TRUE, !.port = b[1] * 256 + b[2]])
+    [] pc = "r_port" -> Stop(wrote, [out EXCEPT !.ok = TRUE, !.port = b[1] * 256 + b[2],
+                                                !.host = Render(c.prof, out.atyp, out.addr)])
 
 NextBound == LET bs == {x \in bounds : x > pos} IN IF bs = {} THEN Len(stream)
              ELSE CHOOSE x \in bs : \A y \in bs : x <= y
@@ -264,7 +289,7 @@ ConnEOF ==
 
 \* UDP request header: length checks per address type on the whole datagram
 ImplUdp(d) ==
-  LET n == Len(d) bad == [ok |-> FALSE, cmd |-> 0, atyp |-> 0, addr |-> <<>>, port |-> 0] IN
+  LET n == Len(d) bad == NoOut IN
   IF n < UdpMinLen \/ n < 4 THEN bad
   ELSE IF d[3] # 0 THEN bad
   ELSE LET at == d[4] IN
@@ -272,12 +297,17 @@ ImplUdp(d) ==
        ELSE LET al == CASE at = 1 -> 4 [] at = 4 -> 16 [] at = 3 -> 1 + d[5]
                 h == 4 + al + 2
             IN IF n < h THEN bad
-               ELSE [ok |-> TRUE, cmd |-> h, atyp |-> at, port |-> d[h - 1] * 256 + d[h],     \* cmd doubles as header length
-                     addr |-> IF at = 3 THEN Cut(d, 6, 5 + d[5]) ELSE Cut(d, 5, 4 + al)]
+               ELSE LET a == IF at = 3 THEN Cut(d, 6, 5 + d[5]) ELSE Cut(d, 5, 4 + al) IN
+                    [ok |-> TRUE, cmd |-> h, atyp |-> at, port |-> d[h - 1] * 256 + d[h],     \* cmd doubles as header length
+                     addr |-> a, host |-> Render("udp", at, a)]
+\* buildUDPHeader: the host TEXT is classified again (EncodeText), the header written for that class
+BuildImpl(host, port, payload) == LET e == EncodeText(host) IN BuildUdp(e.atyp, e.addr, port, payload)
+\* DEVIATION NetipText on the UDP path fires for the addresses parser and encoder disagree about
+NetipDev(u) == "udp" \in NetipText /\ u.st = "result" /\ u.atyp = 4 /\ IsMapped(u.addr)
 UdpParse ==
   /\ pc = "u_parse"
   /\ pos' = Len(stream) /\ got' = 0
-  /\ dev' = (Len(stream) < UdpMinLen /\ ref.st = "result")
+  /\ dev' = ((Len(stream) < UdpMinLen /\ ref.st = "result") \/ NetipDev(ref))
   /\ Stop(wrote, ImplUdp(stream))
   /\ UNCHANGED <<c, ch, stream, bounds, ref>>
 
@@ -286,15 +316,16 @@ Next == ConnRead \/ ConnReadGreedy \/ ConnEOF \/ UdpParse \/ Done
 Spec == Init /\ [][Next]_vars
 
 \* ---- design-level properties (checked exhaustively) -------------------------------------------
-HostOf(o) == IF o.atyp = 3 THEN o.addr ELSE <<>>
-IpOf(o)   == CASE o.atyp = 1 -> V4Mapped(o.addr) [] o.atyp = 4 -> o.addr [] OTHER -> <<>>
-HsObs == [ok |-> out.ok, cmd |-> out.cmd, host |-> HostOf(out), ip |-> IpOf(out), port |-> out.port,
+\* what an observer sees: the host text and the IP it spells (the driver: net.ParseIP of the returned string)
+HsObs == [ok |-> out.ok, cmd |-> out.cmd, host |-> out.host, ip |-> TextIp(out.host), port |-> out.port,
           wrote |-> wrote, consumed |-> pos, panic |-> FALSE]
 UdpObs == LET pl == IF out.ok THEN Rest(stream, out.cmd) ELSE <<>>
-              again == IF out.ok THEN ImplUdp(BuildUdp(out.atyp, out.addr, out.port, pl)) ELSE out
-              one(o, p) == [ok |-> o.ok, host |-> HostOf(o), ip |-> IpOf(o), port |-> o.port, payload |-> p]
-          IN one(out, pl) @@ [panic |-> FALSE,
-                              rt |-> one(again, IF again.ok THEN Rest(BuildUdp(out.atyp, out.addr, out.port, pl), again.cmd) ELSE <<>>)]
+              rebuilt == IF out.ok THEN BuildImpl(out.host, out.port, pl) ELSE <<>>
+              again == IF out.ok THEN ImplUdp(rebuilt) ELSE out
+              one(o, p) == [ok |-> o.ok, host |-> o.host, ip |-> TextIp(o.host), port |-> o.port, payload |-> p]
+          IN one(out, pl) @@ [panic |-> FALSE, rebuilt |-> rebuilt,
+                              nip |-> IF ref.st = "result" /\ ref.atyp = 3 THEN TextIp(ref.addr) ELSE <<>>,
+                              rt |-> one(again, IF again.ok THEN Rest(rebuilt, again.cmd) ELSE <<>>)]
 
 \* a profile that hands its result on as one "host:port" string must produce one that splits back into exactly
 \* the parsed host and port (HostText: the text form of the address; IPv6 text contains ':')
@@ -313,6 +344,8 @@ Conforms == pc = "done" =>
               \/ dev
               \/ IF c.kind = "hs" THEN HsViol(ref, HsObs) = {}
                  ELSE UdpViol(ref, stream, UdpObs) = {}
+\* the judge's clauses alone, no deviation excused (violated under every named deviation: see the *_show_* configurations)
+JudgeQuiet == pc = "done" => IF c.kind = "hs" THEN HsViol(ref, HsObs) = {} ELSE UdpViol(ref, stream, UdpObs) = {}
 \* never reads past the message, at any step
 NoReadPast == c.kind = "hs" => (dev \/ pos <= (IF ref.result THEN ref.used ELSE ref.extent))
 \* every input terminates in a result or a rejection
@@ -356,7 +389,18 @@ UdpRoundTrip ==
          /\ v.st = "result" /\ v.atyp = u.atyp /\ v.addr = u.addr /\ v.port = u.port
          /\ Rest(b, v.pay) = Rest(stream, u.pay)
 
-\* on a conforming tree (Greedy = {}, UdpMinLen = 7) no named deviation can fire
+\* the implementation's own round trip, stated directly: parse . build . parse = parse on (host text, port, payload) for
+\* every ATYP 1 / 4 datagram, and the re-encoded header is a fixed point of build . parse
+ImplRoundTrip ==
+  (c.kind = "udp" /\ pc = "done" /\ out.ok /\ ~(Len(stream) < UdpMinLen)) =>
+    LET pl == Rest(stream, out.cmd)
+        b1 == BuildImpl(out.host, out.port, pl)
+        r2 == ImplUdp(b1)
+        b2 == BuildImpl(r2.host, r2.port, Rest(b1, r2.cmd))
+    IN /\ r2.ok /\ r2.port = out.port /\ Rest(b1, r2.cmd) = pl
+       /\ (out.atyp \in {1, 4} => r2.host = out.host)
+       /\ b2 = b1
+\* on a conforming tree (Greedy = {}, UdpMinLen = 7, NetipText = {}) no named deviation can fire
 NoDev == ~dev /\ ~(pc = "done" /\ out.ok /\ c.kind = "hs" /\ EncDev)
 
 TypeOK == /\ pos \in 0..Len(stream) /\ got \in 0..257 /\ pc \in {"g_hdr", "g_meth", "a_hdr", "a_user", "a_plen",
